@@ -73,6 +73,9 @@ pub fn ctr_succ(heights: &[u8], ctr: u64) -> Option<u64> {
 }
 
 /// Remaining lifetime through `HssPrivateKey::get_lifetime`, without generating any tree.
+/// The key state is the one `HssPrivateKey::from` produces: every level above the bottom has
+/// already spent its current leaf on the signature over its child's public key (its
+/// `used_leafs_index` is one past the leaf in use); the bottom level has not.
 pub fn ctr_lifetime<H: HashChain>(param_bytes: &[u8], ctr: u64) -> Option<u64> {
     let parameters = CompressedParameterSet::from_slice(param_bytes)
         .ok()?
@@ -81,10 +84,11 @@ pub fn ctr_lifetime<H: HashChain>(param_bytes: &[u8], ctr: u64) -> Option<u64> {
     let indexes = CompressedUsedLeafsIndexes::new(ctr).to(&parameters);
     let mut key = HssPrivateKey::<H>::default();
     for (i, parameter) in parameters.iter().enumerate() {
+        let spent = if i + 1 < parameters.len() { 1 } else { 0 };
         key.private_key.push(LmsPrivateKey::new(
             Seed::default(),
             LmsTreeIdentifier::default(),
-            indexes[i],
+            indexes[i] + spent,
             *parameter.get_lmots_parameter(),
             *parameter.get_lms_parameter(),
         ));
